@@ -4,6 +4,7 @@ CONSTANTS
   Obs = {1, 2}
   Vals = {0, 1, 2}
   MaxDepth = 40
+  Extra = {"g", "h", "k"}
   Dev = "none"
 CONSTRAINT GenPrint
 CHECK_DEADLOCK FALSE
